@@ -261,15 +261,30 @@ def markRetryable (s : Store) (w : Nat) : Option Store :=
   | some p => if p.state == 3 then some { s with pms := upsertPm { p with state := 5 } s.pms } else none
   | none => none
 
+/-- the maximum of a list of messages in display order (created_at, processed_at, id) -/
+def newestMsg : List Msg → Option Msg
+  | [] => none
+  | m :: t => match newestMsg t with
+    | none => some m
+    | some b => if (b.created, b.processed, b.id) == (m.created, m.processed, m.id) then some b
+                else if (b.created > m.created || (b.created == m.created && (b.processed > m.processed || (b.processed == m.processed && b.id > m.id)))) then some b
+                else some m
+
 /-- `find_message_epoch_by_tag_content`.  `mode`: 0 = the needle is the tag string itself,
     1 = its ASCII-upper-cased spelling, 2 = a spelling in which a literal character of the tag
     is replaced by a LIKE wildcard (`_`/`%`), which must match nothing on either backend.
-    Returns the set of admissible answers (the contract does not say which match wins). -/
+    Returns the list of admissible answers: the newest match since /repo's tag-search fix (both backends),
+    any match before it (the contract did not say which one wins and the backends disagreed). -/
 def findEpochByTag (s : Store) (gid tag mode : Nat) : List Nat :=
   let matches_ := fun (m : Msg) =>
     m.gid == gid && m.epoch.isSome && m.tag == tag &&
       (mode == 0 || (mode == 1 && s.backend == .sql && Generated.sqlTagSearchCaseInsensitive))
-  ((s.msgs.filter matches_).filterMap (·.epoch)).eraseDups
+  if Generated.tagSearchNewestWins then
+    -- both backends answer with the newest match in display order (created_at, processed_at, id)
+    match newestMsg (s.msgs.filter matches_) with
+    | some m => m.epoch.toList
+    | none => []
+  else ((s.msgs.filter matches_).filterMap (·.epoch)).eraseDups
 
 /-! ## the cached last-message pointer (`Group::update_last_message_if_newer`) -/
 
